@@ -1,0 +1,31 @@
+// Copyright (C) 2026  mieru authors
+//
+// This program is free software: you can redistribute it and/or modify
+// it under the terms of the GNU General Public License as published by
+// the Free Software Foundation, either version 3 of the License, or
+// (at your option) any later version.
+//
+// This program is distributed in the hope that it will be useful,
+// but WITHOUT ANY WARRANTY; without even the implied warranty of
+// MERCHANTABILITY or FITNESS FOR A PARTICULAR PURPOSE.  See the
+// GNU General Public License for more details.
+//
+// You should have received a copy of the GNU General Public License
+// along with this program.  If not, see <https://www.gnu.org/licenses/>.
+
+//go:build verif
+
+package protocol
+
+import "sync/atomic"
+
+// verifReadBeforeWait, when set, is called by Session.Read right before it
+// blocks waiting for data, a close or a deadline. It lets a test hold a
+// reader at that point. Only present in builds with the verif tag.
+var verifReadBeforeWait atomic.Pointer[func(*Session)]
+
+func verifHookReadBeforeWait(s *Session) {
+	if f := verifReadBeforeWait.Load(); f != nil {
+		(*f)(s)
+	}
+}
